@@ -913,6 +913,21 @@ def computeMacroscopicGroupConstants(
             single=True,
         )
 
+    if macroGroupConstants is None:
+        # No nuclide contributed (empty or all-zero composition), so the sum is zero. No nuclide
+        # supplied the shape of the result either: take it from the data that the library holds
+        # for this constant under the same suffix.
+        for libNuclide in lib.getNuclides(microSuffix):
+            try:
+                microGroupConstants = _getMicroGroupConstants(
+                    libNuclide, constantName, libNuclide.name, libType
+                )
+            except AttributeError:
+                continue  # this nuclide has no data of this kind
+            if microGroupConstants.shape:
+                macroGroupConstants = np.zeros(microGroupConstants.shape)
+                break
+
     return macroGroupConstants
 
 
